@@ -713,7 +713,15 @@ class ExecGen(ProgGen):
                     elif depth < 2 and r < 0.3:
                         items.append(("loop", self.hostile_count(shadow), mblock("sequential_block", avail, depth + 1)))
                     else:
-                        items.append(mgate(avail)[0])
+                        g1 = mgate(avail)[0]
+                        items.append(g1)
+                        if g1[1] in self.macro_info and rng.random() < 0.5:
+                            # the same inner macro called again right away, with other arguments
+                            mq, mf = self.macro_info[g1[1]]
+                            for _r in range(rng.choice([1, 1, 2])):
+                                qs = rng.sample(avail, mq)
+                                fs = [rng.choice(fparams) if (fparams and rng.random() < 0.5) else self._angle_not(shadow) for _ in range(mf)]
+                                items.append(("gate", g1[1]) + tuple(qs) + tuple(fs))
             return (kind,) + tuple(items)
 
         kind = "parallel_block" if (nqp > 1 and rng.random() < 0.2) else "sequential_block"
